@@ -32,8 +32,11 @@ type Scn struct {
 	// otherwise an execution that ends with main blocked is reported by the default check.
 	AllowDeadlock bool
 	// Final, if set, is evaluated once after the exploration of the scenario (coverage oracles).
-	Final  func() []Finding
-	Split  int // > 1: deal the first-level subtrees of the search to this many jobs
+	Final func() []Finding
+	Split int // > 1: deal the first-level subtrees of the search to this many jobs
+	// Starve > 0: besides the FIFO base schedule, explore the scenario once per k in 1..Starve
+	// with goroutine number k starved (verifrt.Options.Starve), at the scenario's bound.
+	Starve int
 	Weight int // scheduling hint: heavier jobs are started first
 }
 
@@ -109,7 +112,20 @@ func class(name string) string {
 }
 
 // Split, when > 1 on a scenario, deals the first-level subtrees of its search to that many jobs.
-func runScn(r *Report, sc *Scn, splitIdx, splitK int) {
+// runScn runs one job of a scenario: a shard of its search around the FIFO base schedule
+// (starveLo == 0), or the searches around the base schedules that starve goroutine number
+// starveLo..starveHi.
+func runScn(r *Report, sc *Scn, splitIdx, splitK, starveLo, starveHi int) {
+	if starveLo <= 0 {
+		runScnOne(r, sc, splitIdx, splitK, 0)
+		return
+	}
+	for v := starveLo; v <= starveHi; v++ {
+		runScnOne(r, sc, 0, 1, v)
+	}
+}
+
+func runScnOne(r *Report, sc *Scn, splitIdx, splitK, starve int) {
 	prop, tier := r.Prop, r.Tier
 	r.CurName = sc.Name
 	if r.Expired() {
@@ -121,6 +137,7 @@ func runScn(r *Report, sc *Scn, splitIdx, splitK int) {
 	opts := sc.Opts
 	opts.Deadline = r.Deadline
 	opts.SplitIdx, opts.SplitK = splitIdx, splitK
+	opts.Starve = starve
 	if v := os.Getenv("VERIF_MAXSTEPS"); v != "" {
 		fmt.Sscan(v, &opts.MaxSteps)
 	}
@@ -191,7 +208,7 @@ func runScn(r *Report, sc *Scn, splitIdx, splitK int) {
 		}
 		seen[f.Sig] = true
 		path := rep.WriteReplay(r.Replays, prop, map[string]any{"property": prop, "tier": tier, "scenario": sc.Name, "kind": "schedule",
-			"signature": f.Sig, "message": f.Msg, "bound": opts.Bound, "unbounded": opts.Unbounded, "choices": v.Choices,
+			"signature": f.Sig, "message": f.Msg, "bound": opts.Bound, "unbounded": opts.Unbounded, "starve": opts.Starve, "choices": v.Choices,
 			"log": trunc(v.Outcome.Log, 200), "blocked": v.Outcome.Blocked, "spinners": v.Outcome.Spinners, "live": v.Outcome.Live, "panic": firstLines(v.Outcome.Panic, 30)})
 		r.Violations = append(r.Violations, ViolationRec{Sig: f.Sig, Msg: f.Msg, Scenario: sc.Name, Replay: path})
 	}
@@ -204,6 +221,8 @@ type Job struct {
 	Name     string `json:"name"`
 	SplitIdx int    `json:"split_idx"`
 	SplitK   int    `json:"split_k"`
+	Starve   int    `json:"starve,omitempty"` // > 0: this job explores the starvation schedules Starve..StarveHi
+	StarveHi int    `json:"starve_hi,omitempty"`
 	Weight   int    `json:"weight"`
 	Phase    int    `json:"phase"` // deviation bound of the scenario: lower phases are served first
 }
@@ -226,6 +245,11 @@ func Jobs(prop, tier string) []Job {
 		if k < 1 {
 			k = 1
 		}
+		sc.Starve = starveFor(prop, tier, sc)
+		if v := os.Getenv("VERIF_STARVE"); v != "" && sc.Starve == 0 && sc.Opts.Bound == 0 && !sc.Opts.Unbounded {
+			// experiment switch: starvation schedules for every deviation-free scenario
+			fmt.Sscan(v, &sc.Starve)
+		}
 		for j := 0; j < k; j++ {
 			ph := sc.Opts.Bound
 			if sc.Opts.Unbounded {
@@ -235,6 +259,14 @@ func Jobs(prop, tier string) []Job {
 				}
 			}
 			out = append(out, Job{Index: i, Name: sc.Name, SplitIdx: j, SplitK: k, Weight: sc.Weight + 1000*(k-1), Phase: ph})
+		}
+		// starvation schedules: a few victims per job
+		for v := 1; v <= sc.Starve; v += 8 {
+			hi := v + 7
+			if hi > sc.Starve {
+				hi = sc.Starve
+			}
+			out = append(out, Job{Index: i, Name: sc.Name, SplitK: 1, Starve: v, StarveHi: hi, Weight: sc.Weight, Phase: sc.Opts.Bound})
 		}
 	}
 	for i, p := range plains {
@@ -264,7 +296,7 @@ func Serve(prop, tier, replayDir string, deadline time.Time) {
 		r := rep.New(prop, tier, replayDir, deadline)
 		t0 := time.Now()
 		if j.Index < len(scns) {
-			runScn(r, scns[j.Index], j.SplitIdx, j.SplitK)
+			runScn(r, scns[j.Index], j.SplitIdx, j.SplitK, j.Starve, j.StarveHi)
 		} else {
 			r.RunPlain(plains[j.Index-len(scns)])
 		}
@@ -293,7 +325,11 @@ func RunShard(prop, tier string, shard, nshards int, budget time.Duration, repla
 		if (only != "" && !matchOnly(only, sc.Name)) || (only == "" && !mine) {
 			continue
 		}
-		runScn(r, sc, 0, 1)
+		runScn(r, sc, 0, 1, 0, 0)
+		sc.Starve = starveFor(prop, tier, sc)
+		if sc.Starve > 0 {
+			runScn(r, sc, 0, 1, 1, sc.Starve)
+		}
 	}
 	for _, p := range plains {
 		mine := idx%nshards == shard
@@ -330,6 +366,7 @@ func ReplayFile(path string) int {
 		Signature string `json:"signature"`
 		Bound     int    `json:"bound"`
 		Unbounded bool   `json:"unbounded"`
+		Starve    int    `json:"starve"`
 		Choices   []int  `json:"choices"`
 	}
 	if err := json.Unmarshal(b, &rec); err != nil {
@@ -366,6 +403,7 @@ func ReplayFile(path string) int {
 		}
 		opts := sc.Opts
 		opts.Bound, opts.Unbounded = rec.Bound, rec.Unbounded
+		opts.Starve = rec.Starve
 		opts.Trace = os.Getenv("VERIF_TRACE") != ""
 		if v := os.Getenv("VERIF_MAXSTEPS"); v != "" {
 			fmt.Sscan(v, &opts.MaxSteps)
